@@ -3,6 +3,7 @@ import RModel.Model.Fs
 import RModel.Model.Scope
 import RModel.Gen.Walker
 import Driver.Wire
+import RModel.Base.Lit
 /- driver operations for the scope model (C09); request formats are documented in harness/src/ops_scope.rs -/
 open B Scope
 
@@ -24,8 +25,8 @@ def strings (tag : String) : List String → Option (List Bytes × List String)
 def kindIdx : IgnKind → Nat
   | .gitignore => 0 | .ignore => 1 | .rgignore => 2 | .rnignore => 3 | .gitExclude => 4
 
-def oracleEntry? : List String → Option ((RelPath × List Char) × List String)
-  | p :: bits :: rest => (Wire.path? p).map (fun p => ((p, bits.toList), rest))
+def oracleEntry? : List String → Option ((RelPath × List Char × List Char) × List String)
+  | p :: below :: above :: rest => (Wire.path? p).map (fun p => ((p, below.toList, above.toList), rest))
   | _ => none
 
 def showPaths (ps : List RelPath) : String :=
@@ -55,6 +56,9 @@ def fileBehind (t : Fs.Tree) : Nat → RelPath → Option Bytes
 
 def containsSub (s p : Bytes) : Bool := (B.find s p).isSome
 
+/-- strict prefixes of a path, shortest first (`[]` included unless the path is `[]`) -/
+def strictPrefixes (p : RelPath) : List RelPath := (inits p).filter (fun q => decide (q.length < p.length))
+
 def scope (fields : List String) : Option String := do
   let (level, rest) ← match fields with
     | l :: r => (Wire.nat? l).map (fun n => (n, r))
@@ -64,42 +68,67 @@ def scope (fields : List String) : Option String := do
     | [] => none
   let (inc, rest) ← strings "I" rest
   let (exc, rest) ← strings "X" rest
+  let (rootsB, rest) ← strings "P" rest
   let (tree, rest) ← Wire.tree? rest
   let (orc, rest) ← Wire.counted "O" oracleEntry? rest
   let search ← match rest with
     | ["M", s] => ofHex s
     | _ => none
-  let ty : RelPath → FType := fun p =>
+  let roots : List RelPath := rootsB.map Fs.splitPath
+  let hasGit : RelPath → Bool := fun d => (Fs.lookup tree (d ++ [gitName])).isSome
+  let tyFull : RelPath → FType := fun p =>
     match Fs.lookup tree p with
     | some (.dir _) => .dir
     | some (.link _) => .symlink
     | _ => .file
-  let ign : IgnoreOracle := fun k p =>
+  let bit : (RelPath × List Char × List Char → List Char) → IgnKind → RelPath → Bool := fun sel k p =>
     match orc.find? (fun e => e.1 == p) with
-    | some e => e.2.getD (kindIdx k) '0' == '1'
+    | some e => (sel e).getD (kindIdx k) '0' == '1'
     | none => false
-  let req : Request :=
-    { level := level, respectGitignore := respect, inGit := (Fs.lookup tree [gitName]).isSome, ign := ign, ty := ty,
-      gm := Glob.matchesD, globs := { includes := inc, excludes := exc } }
-  let entries : List Entry := tree.filterMap (fun e =>
-    if e.1.isEmpty then none else
-    match e.2 with
-    | .file c _ => some { path := e.1, ftype := .file, content := c }
-    | .dir _ => some { path := e.1, ftype := .dir }
-    | .link _ =>
-      match fileBehind tree 8 e.1 with
-      | some c => some { path := e.1, ftype := .symlink, content := c, linkToFile := true }
-      | none => some { path := e.1, ftype := .symlink })
-  let c := P.cfgFor req
-  let walkedE := entries.filter (fun e => walked c req.inGit req.ign req.ty e.path)
-  let named := fun (e : Entry) => match e.path.getLast? with | some n => containsSub n search | none => false
-  let sCount := (walkedE.filter (fun e => isFileFor P.scanFollows e && globsOk P.G req.gm req.globs e.path)).length
-  let sFiles := entries.filter (fun e => inScope P req e && containsSub e.content search)
-  let rens := entries.filter (fun e => renameCandidate P req e && named e)
-  let qCount := (walkedE.filter (fun e => isFileFor P.simpleFollows e && globsOk P.G req.gm req.globs e.path)).length
-  let qFiles := entries.filter (fun e => inScopeSimple P req e && containsSub e.content search)
-  let ps := fun (es : List Entry) => showPaths (es.map (·.path))
-  some s!"W {ps walkedE} | S {sCount} {ps sFiles} | R {ps rens} | Q {qCount} {ps qFiles} | QR {ps rens}"
+  let named := fun (p : RelPath) => match p.getLast? with | some n => containsSub n search | none => false
+  -- per root: the entries strictly below it, judged with the root's own site
+  let perRoot := (roots.zipIdx).map (fun (R, idx) =>
+    let site : Site :=
+      { gitAt := fun d => hasGit (R ++ d), ancGit := (strictPrefixes R).any hasGit,
+        ign := fun k p => bit (fun e => e.2.1) k (R ++ p), ignAbove := fun k p => bit (fun e => e.2.2) k (R ++ p),
+        ty := fun p => tyFull (R ++ p) }
+    let req : Request :=
+      { level := level, respectGitignore := respect, site := site, gm := Glob.matchesD,
+        globs := { includes := inc, excludes := exc }, firstRoot := idx == 0, absPrefix := [[], b!"abs"] ++ R }
+    let entries : List Entry := tree.filterMap (fun e =>
+      if R.isPrefixOf e.1 && decide (R.length < e.1.length) then
+        let rel := e.1.drop R.length
+        match e.2 with
+        | .file c _ => some { path := rel, ftype := .file, content := c }
+        | .dir _ => some { path := rel, ftype := .dir }
+        | .link _ =>
+          match fileBehind tree 8 e.1 with
+          | some c => some { path := rel, ftype := .symlink, content := c, linkToFile := true }
+          | none => some { path := rel, ftype := .symlink }
+      else none)
+    let c := P.cfgFor req
+    let walkedE := entries.filter (fun e => walked c req.site e.path)
+    let full := fun (es : List Entry) => es.map (fun e => R ++ e.path)
+    ( full walkedE,
+      full (walkedE.filter (fun e => isFileFor P.scanFollows e && globsOk P.G req.gm req.globs e.path)),
+      full (entries.filter (fun e => inScope P req e && containsSub e.content search)),
+      -- the root entry itself (depth 0) is yielded by the walker and may be renamed
+      (if !R.isEmpty && named R && renameCandidate P req { path := [], ftype := .dir } then [R] else []) ++
+        full (entries.filter (fun e => renameCandidate P req e && named e.path)),
+      full (walkedE.filter (fun e => isFileFor P.simpleFollows e && globsOk P.G req.gm req.globs (simpleGlobPath P req e))),
+      full (entries.filter (fun e => inScopeSimple P req e && containsSub e.content search)),
+      (if !R.isEmpty && named R && renameCandidateSimple P req { path := [], ftype := .dir } then [R] else []) ++
+        full (entries.filter (fun e => renameCandidateSimple P req e && named e.path)) ))
+  let cat := fun (sel : (List RelPath × List RelPath × List RelPath × List RelPath × List RelPath × List RelPath × List RelPath) → List RelPath) =>
+    (perRoot.flatMap sel).eraseDups
+  let w := cat (·.1)
+  let sAll := cat (·.2.1)
+  let sHit := cat (·.2.2.1)
+  let rens := cat (·.2.2.2.1)
+  let qAll := cat (·.2.2.2.2.1)
+  let qHit := cat (·.2.2.2.2.2.1)
+  let qRens := cat (·.2.2.2.2.2.2)
+  some s!"W {showPaths w} | S {sAll.length} {showPaths sHit} | R {showPaths rens} | Q {qAll.length} {showPaths qHit} | QR {showPaths qRens}"
 
 def isbinary : List String → Option String
   | [l, h] =>
